@@ -29,15 +29,15 @@ RULE = (
     "(a) rewrite rules {string <-> object <-> one-element-list transition, always <-> on[''], cond <-> guard, single action "
     "<-> list <-> object, numeric <-> string delay key, drop 'initial' with a single child, target respelled as every "
     "spelling an independent reference resolver maps to the same state (sibling key, dotted path, leading-dot relative, "
-    "#machineId.path, #customId)} applied at every applicable site of every corpus machine and of TREE universal machines, "
+    "#machineId.path, #customId)} applied at every applicable site of every corpus machine, of TREE universal machines and of COLLIDE machines (the keys x, y repeated at every level, so a spelling looked up in the wrong scope finds the wrong state instead of failing), "
     "singly / in pairs / all at once; oracle: deep fingerprint + trace equivalence (all-true and all-false guards); "
     "(b) every JSON position of every corpus config x every wrong-typed value from a 9-value menu (types the schema accepts "
     "at that key are skipped), driven through create_machine, start, every event to depth 2 and can(); "
     "distinct_nontrivial = distinct (machine, rewrite set) + distinct (machine, position, value) cases"
 )
 BOUNDS = {
-    "quick": "10 corpus machines + TREE(N<=2) respellings; single rewrites + all-at-once; all single-point corruptions",
-    "thorough": "10 corpus machines + TREE(N<=3) respellings; single, paired and all-at-once rewrites; all single-point corruptions",
+    "quick": "10 corpus machines + TREE(N<=2) respellings + 3 key-colliding machines; single rewrites + all-at-once; all single-point corruptions",
+    "thorough": "10 corpus machines + TREE(N<=3) respellings + 6 key-colliding machines; single, paired and all-at-once rewrites; all single-point corruptions",
 }
 ASSUMPTIONS = [
     "spellings are generated from a reference resolver written from the documented resolution rules; only spellings it maps to the same state are used",
@@ -510,6 +510,53 @@ def run_corruptions(name: str, cfg, res):
                     replay=dict(kind="corrupt", machine=name, path=list(path), value=w)))
 
 
+def collide_machines(tier: str) -> Dict[str, Dict[str, Any]]:
+    """Machines whose state keys repeat at every level (x / y under x / y under x ...): a spelling that is looked up in the
+    wrong scope finds a state - the wrong one - instead of failing.  Every state has one event per target state, written
+    in the '#id' form; target_rewrites() then respells it in every way the reference resolver maps to the same state."""
+    out: Dict[str, Dict[str, Any]] = {}
+    keys = ("x", "y")
+    shapes = []
+    for xs in (0, 1):          # x compound?
+        for ys in (0, 1):      # y compound?
+            for xxs in ((0, 1) if xs else (0,)):   # x.x compound?
+                shapes.append((xs, ys, xxs))
+    if tier == "quick":
+        shapes = [sh for sh in shapes if sh in ((1, 0, 0), (1, 1, 0), (1, 0, 1))]
+    for xs, ys, xxs in shapes:
+        def kids(deeper):
+            return {k: ({"initial": "x", "states": deeper(k)} if deeper(k) else {}) for k in keys}
+        lvl3 = {k: {} for k in keys}
+        lvl2x = {k: ({"initial": "x", "states": copy.deepcopy(lvl3)} if (k == "x" and xxs) else {}) for k in keys}
+        lvl2y = {k: {} for k in keys}
+        cfg = {"id": "m", "initial": "x", "states": {
+            "x": ({"initial": "x", "states": lvl2x} if xs else {}),
+            "y": ({"initial": "x", "states": lvl2y} if ys else {})}}
+        # universal transitions
+        ids: List[Tuple[str, Dict[str, Any]]] = []
+
+        def walk(node, nid):
+            for k, c in (node.get("states") or {}).items():
+                ids.append((nid + "." + k, c))
+                walk(c, nid + "." + k)
+        walk(cfg, "m")
+        for i, (sid, snode) in enumerate(ids):
+            snode["on"] = {f"T{i}_{j}": {"target": "#" + tid, "actions": [f"a{i}_{j}"]} for j, (tid, _) in enumerate(ids)}
+        out[f"collide:{xs}{ys}{xxs}"] = cfg
+    return out
+
+
+def machine_by_name(name: str):
+    if name in C.corpus():
+        return C.corpus()[name]
+    if name.startswith("collide:"):
+        return collide_machines("thorough")[name]
+    for t in F.trees_upto(3):
+        if F.tree_str(t) == name:
+            return F.universal_config(t, reenter_all=False)[0]
+    raise KeyError(name)
+
+
 def units(tier: str) -> List[Any]:
     us: List[Any] = []
     for name in C.corpus():
@@ -517,6 +564,8 @@ def units(tier: str) -> List[Any]:
         us.append(("corrupt", name, tier))
     for t in F.trees_upto(2 if tier == "quick" else 3):
         us.append(("tree", t, tier))
+    for name in collide_machines(tier):
+        us.append(("collide", name, tier))
     us.append(("toplevel", None, tier))
     return us
 
@@ -549,6 +598,12 @@ def run_unit(unit):
         for rw in rws:
             check_equiv(F.tree_str(payload), cfg, [rw], res, F.tree_str(payload))
         res["samples"].append(dict(machine=F.tree_str(payload), target_respellings=len(rws)))
+    elif kind == "collide":
+        cfg = collide_machines(tier)[payload]
+        rws = target_rewrites(cfg)
+        for rw in rws:
+            check_equiv(payload, cfg, [rw], res, payload)
+        res["samples"].append(dict(machine=payload, target_respellings=len(rws), example=[d for d, _ in rws[:3]]))
     elif kind == "corrupt":
         run_corruptions(payload, C.corpus()[payload], res)
         res["samples"].append(dict(machine=payload, corruptions=res["evaluations"]))
@@ -582,4 +637,12 @@ def replay(payload):
         if exc is not None and not isinstance(exc, XStateMachineError):
             return [dict(signature="C18|raw", what=repr(exc))]
         return []
+    if payload["kind"] == "equiv":
+        cfg = machine_by_name(payload["machine"])
+        allrw = dict(rewrites(cfg) + target_rewrites(cfg))
+        res = dict(states=0, transitions=0, executions=0, evaluations=0, distinct_count=0, violations=[], samples=[], caps=[])
+        check_equiv(payload["machine"], cfg, [(d, allrw[d]) for d in payload["rewrites"]], res, payload["machine"])
+        for v in res["violations"]:
+            print("  ", v["what"][:400])
+        return res["violations"]
     return []
